@@ -473,6 +473,22 @@ def gen_long_case(r):
                 script=script, chans=total)
 
 
+MAX_STREAM = 150000
+
+
+def stream_size(c):
+    """bytes the independent encoder needs for the case (the Coq encoder writes the same stream)"""
+    try:
+        enc = PyEncoder(c["version"], c["ftype"], c["nchan"], c["bs0"], c["maxnlpc"], c["nmean"], c["skip"])
+        for it in c["script"]:
+            enc.item(it)
+            if len(enc.w.b) > 8 * MAX_STREAM:
+                break
+        return len(enc.w.b) // 8
+    except (AssertionError, ValueError, IndexError):
+        return 0
+
+
 def coq_item(it):
     if it[0] == "bs":
         return "IBlockSize %d" % it[1]
@@ -533,8 +549,11 @@ def corr_encoder(ctx, impl, n_cases):
     r = ctx.rng
     _, pcm = ref_tables()
     cases = []
-    for i in range(n_cases):
+    while len(cases) < n_cases:
         c = gen_case(r, ctx.thorough)
+        if stream_size(c) > MAX_STREAM:  # long unary runs (small residual width, huge residuals)
+            ctx.count("A:skipped-stream-over-%dkB" % (MAX_STREAM // 1000))
+            continue
         c["dt"] = r.choice(["NONE", "NONE", "I16", "I32"] + (["U8"] if c["ftype"] in (TYPE_AU1, TYPE_AU2) else []))
         c["pad"] = r.choice([False, True])
         c["want"] = cast_expected(interleave(c["chans"]), c["dt"], c["ftype"], pcm)
@@ -719,6 +738,9 @@ def corr_decoder(ctx, impl, n_cases, extra_streams=()):
         if not header_ok_for_eval(payload, max(1, meta["case"]["nchan"])):
             ctx.count("B:skipped-huge-or-inconsistent-header")
             continue
+        if len(payload) > MAX_STREAM:
+            ctx.count("B:skipped-stream-over-%dkB" % (MAX_STREAM // 1000))
+            continue
         todo.append((payload, meta))
     rows = []
     for payload, meta in todo:
@@ -869,6 +891,9 @@ def search(ctx, impl, n_cases):
             continue
         dtkey = r.choice(["NONE", "I32"] + (["U8"] if c["ftype"] in (TYPE_AU1, TYPE_AU2) else []))
         open_bits = list(enc.w.b)
+        if len(open_bits) > 8 * 4 * MAX_STREAM:
+            ctx.count("S:skipped-stream-over-%dkB" % (4 * MAX_STREAM // 1000))
+            continue
         payload = enc.finish(rng=r)
         want = cast_expected(interleave(c["chans"]), dtkey, c["ftype"], pcm)
         nsamp = len(c["chans"][0]) + r.choice([0, 0, 4])
